@@ -1007,6 +1007,13 @@ func c11CallCtx(v ssa.Value, f *ssa.Function, fns []*ssa.Function, depth int, se
 		}
 		return len(x.Edges) > 0
 	case *ssa.UnOp:
+		if x.Op == token.MUL {
+			if cell, owner := c11CapturedCell(x.X, f); cell != nil {
+				// a variable of the enclosing call that a function literal of it captures (`guard := func(...) { ...
+				// Exec(ctx, ...) }` called in place): every value it ever holds is that call's ctx parameter
+				return c11CellHoldsCtx(cell, owner, fns, depth, seen)
+			}
+		}
 		fa, isFA := x.X.(*ssa.FieldAddr)
 		if x.Op != token.MUL || !isFA {
 			return false
@@ -1299,4 +1306,112 @@ func withPhiWays(fs []flow.Fact) []flow.Fact {
 		}
 	}
 	return out
+}
+
+// c11CapturedCell: addr (used in f) is the cell of a local variable of the call f belongs to: the Alloc itself in
+// the function that declares it, or the free variable of a function literal that is only ever called in place by the
+// function that makes it (so it runs during the same call).  Returns the Alloc and the function that declares it.
+func c11CapturedCell(addr ssa.Value, f *ssa.Function) (*ssa.Alloc, *ssa.Function) {
+	for depth := 0; depth < 6 && f != nil; depth++ {
+		switch x := addr.(type) {
+		case *ssa.Alloc:
+			if x.Parent() != f {
+				return nil, nil
+			}
+			return x, f
+		case *ssa.FreeVar:
+			if x.Parent() != f || f.Parent() == nil {
+				return nil, nil
+			}
+			idx := -1
+			for i, fv := range f.FreeVars {
+				if fv == x {
+					idx = i
+				}
+			}
+			var next ssa.Value
+			n := 0
+			bad := false
+			ssau.Instrs(f.Parent(), func(in ssa.Instruction) {
+				mc, isMC := in.(*ssa.MakeClosure)
+				if !isMC || mc.Fn != ssa.Value(f) {
+					return
+				}
+				n++
+				if idx < 0 || idx >= len(mc.Bindings) {
+					bad = true
+					return
+				}
+				next = mc.Bindings[idx]
+				for _, r := range ssau.Referrers(mc) {
+					switch y := r.(type) {
+					case *ssa.Call:
+						if y.Call.Value != ssa.Value(mc) {
+							bad = true // handed to something: may run after the call is over
+						}
+						for _, a := range y.Call.Args {
+							if a == ssa.Value(mc) {
+								bad = true
+							}
+						}
+					case *ssa.DebugRef:
+					default:
+						bad = true
+					}
+				}
+			})
+			if n != 1 || bad || next == nil {
+				return nil, nil
+			}
+			addr, f = next, f.Parent()
+		default:
+			return nil, nil
+		}
+	}
+	return nil, nil
+}
+
+// c11CellHoldsCtx: the captured variable cell (declared in owner) only ever holds owner's call context: it is
+// written as a whole only, every value stored into it (in owner or in a literal that captures it) is the call's
+// ctx, and its address goes nowhere else.
+func c11CellHoldsCtx(cell *ssa.Alloc, owner *ssa.Function, fns []*ssa.Function, depth int, seen map[ssa.Value]bool) bool {
+	if seen[cell] {
+		return true
+	}
+	seen[cell] = true
+	nstore := 0
+	var okAddr func(addr ssa.Value, in *ssa.Function, d int) bool
+	okAddr = func(addr ssa.Value, in *ssa.Function, d int) bool {
+		if d > 6 {
+			return false
+		}
+		for _, r := range ssau.Referrers(addr) {
+			switch y := r.(type) {
+			case *ssa.UnOp:
+				if y.Op != token.MUL {
+					return false
+				}
+			case *ssa.Store:
+				if y.Addr != addr || !c11CallCtx(y.Val, owner, fns, depth+1, seen) {
+					return false
+				}
+				nstore++
+			case *ssa.MakeClosure:
+				lit, isFn := y.Fn.(*ssa.Function)
+				if !isFn {
+					return false
+				}
+				for i, b := range y.Bindings {
+					if b == addr && (i >= len(lit.FreeVars) || !okAddr(lit.FreeVars[i], lit, d+1)) {
+						return false
+					}
+				}
+			case *ssa.DebugRef:
+			default:
+				return false
+			}
+		}
+		return true
+	}
+	return okAddr(cell, owner, 0) && nstore > 0
 }
